@@ -4,6 +4,7 @@ import (
 	"bufio"
 	"errors"
 	"io"
+	"math"
 	"net/http"
 	"net/url"
 	"time"
@@ -176,4 +177,23 @@ func vhC20Connect() {
 	verifAssert(n == 0, "C20/Connect/no-partial-event-delivered")
 	verifAssert(body.pos <= lim, "C20/Connect/reads-at-most-the-limit-before-reporting")
 	verifAssert(body.closed, "C20/Connect/body-closed")
+}
+
+// "Unlimited": the largest values the configuration can carry. Nothing is allocated up
+// front for them, no call panics, and a small stream is delivered intact.
+func vhC20Huge() {
+	lim := []int{math.MaxInt, 1 << 62}[verifChoose("limit", 2)]
+	stream := append(append([]byte("data:"), verifNondetBytes("hole", 1)...), []byte("\n\n")...)
+	if verifChoose("api", 2) == 0 {
+		o := vhRunRead(&vhReader{data: stream}, &ReadConfig{MaxEventSize: lim}, -1)
+		vhCheckReadAgainstSpec("C20/Huge/Read", stream, o, -1, nil)
+	} else {
+		var o vhConnOutcome
+		c := vhNewConn(nil, nil)
+		c.Buffer(nil, lim)
+		c.SubscribeToAll(func(e Event) { o.events = append(o.events, e) })
+		o.err = c.read(&vhReader{data: stream}, func(time.Duration) {})
+		vhCheckConnAgainstSpec("C20/Huge/Conn", stream, "", o, c, nil)
+	}
+	verifCover("C20/Huge/ran")
 }
